@@ -228,6 +228,19 @@ Theorem C01_supplied_kept : forall derived computed rs s0,
 Proof. exact c01_supplied_kept. Qed.
 Print Assumptions C01_supplied_kept.
 
+(* supplied areas (MPAS areaCell/areaTriangle, SCRIP grid_area, ESMF elementArea; fix 3e603c73) are face_areas,
+   in face order, right after opening and after any read history *)
+Theorem C01_reader_areas_carried : forall lon a derived computed rs,
+  lz_areas (c01_reader_state lon (Some a)) = Some a /\
+  lz_areas (c01_rd_run derived computed (c01_reader_state lon (Some a)) rs) = Some a.
+Proof. exact c01_reader_areas_carried. Qed.
+Print Assumptions C01_reader_areas_carried.
+
+Theorem C01_reader_areas_derived : forall derived computed rs s0, lz_areas s0 = None ->
+  lz_areas (c01_rd_run derived computed s0 rs) = if existsb c01_reads_area rs then Some computed else None.
+Proof. exact c01_reader_areas_derived. Qed.
+Print Assumptions C01_reader_areas_derived.
+
 (* ---- format sniffing ---- *)
 Theorem C01_sniff : forall k,
   (c01_sniff k = 0 <-> k_coord k = true \/ k_coordx k = true) /\
